@@ -30,7 +30,10 @@ def judge(res, o, lean):
                 res.fail("reads-child-beyond-declared-shift", inp, {"n": n, "child": who, "read": m, "shifts": sh})
                 return
     if lean is not None:
-        _chk, msh, _status, _model = speccheck.parse_lean(lean)
+        ll = speccheck.parse_lean(lean)
+        _chk, msh, _status, _model = ll
+        if not ll.wf:
+            res.diff("rule form does not meet SkelWF (hypothesis of skel_local)", inp, "wf=0", "")
         mine = ",".join(map(str, sh))
         if msh.get(0) != mine:
             res.diff("rule.shifts() vs Lean model shifts", inp, msh.get(0), mine)
